@@ -106,7 +106,11 @@ pub fn write_module(
                     path.display(),
                     lc.line,
                     lc.column,
-                    raw_output.lines().nth(lc.line - 1).unwrap(),
+                    // a lexing error carries no position (line 0)
+                    raw_output
+                        .lines()
+                        .nth(lc.line.saturating_sub(1))
+                        .unwrap_or_default(),
                     format!("{}^", " ".repeat(lc.column))
                 ));
                 raw_output
